@@ -1248,6 +1248,32 @@ func (it *itInterp) opaqueCall(fr *itFrame, call *ast.CallExpr, fn *itOpaque, ar
 		it.calls = append(it.calls, "Range:"+itStr(recv))
 		return it.callValue(src, args)
 	}
+	// a predicate helper of the module applied to an element (isVisible(n, now)): looked into, so that the tests it makes
+	// are known per element
+	if ref, ok := it.decls[f]; ok {
+		sig := f.Type().(*types.Signature)
+		isBool := sig.Results().Len() == 1
+		if isBool {
+			b, okB := sig.Results().At(0).Type().Underlying().(*types.Basic)
+			isBool = okB && b.Info()&types.IsBoolean != 0
+		}
+		isElem := func(v any) bool {
+			switch x := v.(type) {
+			case *itSym:
+				return strings.Contains(x.fn, "#") && len(x.args) == 0
+			case *itObj:
+				return x.elem
+			}
+			return false
+		}
+		onElem := recv != nil && isElem(recv)
+		for _, a := range args {
+			onElem = onElem || isElem(a)
+		}
+		if isBool && onElem && it.depth < 30 {
+			return it.callFunc(&itFunc{name: f.Name(), decl: ref.decl, info: ref.pkg.TypesInfo, recv: recv, hasRecv: recv != nil}, args)
+		}
+	}
 	// a list node of a canonical shape: link getters read the modelled links
 	if o, ok := recv.(*itObj); ok {
 		if v, ok := o.fields["m:"+f.Name()]; ok && len(args) == 0 {
